@@ -311,13 +311,13 @@ class Runner:
         self.chk, self.T, self.wd, self.pool, self.drv = chk, T, wd, pool, drv
         self.n = 0
 
-    def prepare(self, job, tag, argv_order=None, mix_cut=None, style=0, json_job=None):
+    def prepare(self, job, tag, argv_order=None, mix_cut=None, style=0, json_job=None, argv_override=None):
         """-> list of (rendering name, kind, dir, payload)"""
         T = self.T
         self.n += 1
         base = "%s%05d" % (tag, self.n)
         rs = []
-        argv = render_argv(T, job, argv_order, style)
+        argv = argv_override if argv_override is not None else render_argv(T, job, argv_order, style)
         d = new_rundir(self.wd, self.pool, base + "/cli-argv")
         rs.append(("cli-argv", "cli", d, argv))
         d = new_rundir(self.wd, self.pool, base + "/cli-json")
@@ -1194,5 +1194,57 @@ def run(chk):
 
 
 def replay(chk, rep):
-    print(json.dumps(rep, indent=1))
-    return 0
+    """re-run exactly the recorded case: the recorded job in all renderings (or the recorded front-end input on model and
+    implementation) and say whether the disagreement is still there"""
+    drv = os.path.join(common.DRV, "drv")
+    T = Tables()
+    wd = common.workdir("C19")
+    pool = make_pool(wd)
+    runner = Runner(chk, T, wd, pool, drv)
+    if rep.get("kind") == "correspondence-broken":
+        c = rep["first_case"]
+        common.build_extract()
+        jobs = [base_job()]
+        chk.rng.seed(0)
+        cases = [("argv", c["input"])] if c["form"] == "argv" else [("json", c["input"], bool(c.get("partial")))]
+        mrunner = os.path.join(common.EXTRACT, "model_runner")
+        files = ",".join(hexs(f) for f in POOL)
+        ml = ["front_argv %s %s" % (files, " ".join(hexs(a) for a in cases[0][1]))] if c["form"] == "argv" else \
+             ["front_json %d %s" % (1 if cases[0][2] else 0, " ".join(jtokens(cases[0][1])))]
+        mo = common.run_lines(mrunner, ml)[0]
+        d = new_rundir(wd, pool, "replay")
+        exe = "env --chdir=%s %s" % (d, drv)
+        rl = ["cfgf_argv " + " ".join(hexs(a) for a in cases[0][1])] if c["form"] == "argv" else \
+             ["cfgf_json " + hexs(json.dumps(cases[0][1])) + (" partial" if cases[0][2] else "")]
+        ro = common.run_lines(exe, rl)[0]
+        parts = mo.split(" ", 1)
+        po = common.run_lines(exe, ["cfgf_replay " + parts[0] + " " + (parts[1] if len(parts) > 1 else "-")])[0]
+        print("model:          " + mo[:2000])
+        print("implementation: " + ro[:300])
+        print("model calls replayed through the real Config API: " + po[:300])
+        same = (ro == po) or (ro.startswith("usage") and po.startswith("end front:"))
+        print("REPLAY: %s" % ("model and implementation agree now" if same else "still differs"))
+        return 0 if same else 1
+    if "job_json" not in rep:
+        print(json.dumps(rep, indent=1)[:4000])
+        return 1
+    job = rep["job_json"]
+    jj = None
+    if rep.get("job_json_as_given"):
+        try:
+            jj = json.loads(rep["job_json_as_given"])
+        except ValueError:
+            jj = None
+    rs = runner.prepare(job, "x", json_job=jj, argv_override=rep.get("argv_reversed_order"))
+    res = runner.run_all([(job, rs)])[0]
+    for n, r in res.items():
+        print("%-10s rc=%s usage=%s stdout=%s files=%s payload=%s" % (n, r["rc"], r["usage"], r["stdout"], r["files"], r["payload"]))
+        if r["stderr"]:
+            print("           stderr: " + r["stderr"][-300:].replace("\n", " | "))
+    why = compare(res)
+    if rep.get("part") == "pairs":
+        a, b = res["cli-argv"], res["cli-json"]
+        if (a["rc"], a["stdout"], a["files"], a["usage"]) != (b["rc"], b["stdout"], b["files"], b["usage"]):
+            why = why or "the reversed command-line order differs from the job JSON"
+    print("REPLAY: %s" % (("still fails: " + why) if why else "the renderings agree now"))
+    return 1 if why else 0
